@@ -57,6 +57,12 @@ static int s_pw_id(unsigned char *o) { return crypto_pwhash(o, 32, PW, PWLEN, SA
 static int s_pw_i(unsigned char *o) { return crypto_pwhash(o, 32, PW, PWLEN, SALT, 3, 65536, crypto_pwhash_ALG_ARGON2I13); }
 static int s_a2id(unsigned char *o) { return crypto_pwhash_argon2id(o, 64, PW, PWLEN, SALT, 1, 8192, crypto_pwhash_argon2id_ALG_ARGON2ID13); }
 static int s_a2i(unsigned char *o) { return crypto_pwhash_argon2i(o, 16, PW, PWLEN, SALT, 3, 200000, crypto_pwhash_argon2i_ALG_ARGON2I13); }
+/* memory sizes in different allocation classes (an allocator may switch strategy - huge pages, direct mappings - above a threshold) */
+static int s_pw_id_16m(unsigned char *o) { return crypto_pwhash(o, 32, PW, PWLEN, SALT, 1, 16U << 20, crypto_pwhash_ALG_ARGON2ID13); }
+static int s_pw_i_12m(unsigned char *o) { return crypto_pwhash(o, 32, PW, PWLEN, SALT, 3, 12U << 20, crypto_pwhash_ALG_ARGON2I13); }
+static int s_pw_id_2m(unsigned char *o) { return crypto_pwhash(o, 32, PW, PWLEN, SALT, 1, 2U << 20, crypto_pwhash_ALG_ARGON2ID13); }
+static int s_pw_id_32m(unsigned char *o) { return crypto_pwhash(o, 32, PW, PWLEN, SALT, 1, 32U << 20, crypto_pwhash_ALG_ARGON2ID13); }
+static int s_str_16m(unsigned char *o) { return crypto_pwhash_str((char *) o, PW, PWLEN, 1, 16U << 20); }
 static int s_pw_id_long(unsigned char *o) { static unsigned char big[300]; int r = crypto_pwhash(big, 200, PW, PWLEN, SALT, 1, 8192, crypto_pwhash_ALG_ARGON2ID13); memcpy(o, big, 64); return r; }
 static int s_pw_i_long(unsigned char *o) { static unsigned char big[300]; int r = crypto_pwhash(big, 129, PW, PWLEN, SALT, 3, 8192, crypto_pwhash_ALG_ARGON2I13); memcpy(o, big, 64); return r; }
 static int s_sc_long(unsigned char *o) { static unsigned char big[300]; int r = crypto_pwhash_scryptsalsa208sha256(big, 200, PW, PWLEN, SALT, 32768, 16777216); memcpy(o, big, 64); return r; }
@@ -86,6 +92,8 @@ static int s_malloc(unsigned char *o) { (void) o; held = sodium_malloc(100); ret
 static int s_allocarray(unsigned char *o) { (void) o; held = sodium_allocarray(33, 129); return held ? 0 : -1; }
 static const scen SC[] = {
     { "crypto_pwhash(argon2id)", 0, s_pw_id }, { "crypto_pwhash(argon2i)", 0, s_pw_i }, { "crypto_pwhash_argon2id", 0, s_a2id }, { "crypto_pwhash_argon2i", 0, s_a2i },
+    { "crypto_pwhash(argon2id,16MiB)", 0, s_pw_id_16m }, { "crypto_pwhash(argon2i,12MiB)", 0, s_pw_i_12m }, { "crypto_pwhash(argon2id,2MiB)", 0, s_pw_id_2m }, { "crypto_pwhash(argon2id,32MiB)", 0, s_pw_id_32m },
+    { "crypto_pwhash_str(16MiB)", 1, s_str_16m },
     { "crypto_pwhash(argon2id,outlen=200)", 0, s_pw_id_long }, { "crypto_pwhash(argon2i,outlen=129)", 0, s_pw_i_long }, { "crypto_pwhash_scryptsalsa208sha256(outlen=200)", 0, s_sc_long },
     { "crypto_pwhash_str", 1, s_str }, { "crypto_pwhash_str_alg(argon2i)", 1, s_str_i }, { "crypto_pwhash_argon2id_str", 1, s_a2id_str }, { "crypto_pwhash_argon2i_str", 1, s_a2i_str },
     { "crypto_pwhash_str_verify(argon2id,correct)", 2, s_vfy_id }, { "crypto_pwhash_str_verify(argon2i,correct)", 2, s_vfy_i },
